@@ -885,3 +885,10 @@ def describe(case, out):
     elif k == "embv": d.update({"target": "embv.from_gmod", "markers": len(case["xoprob"])})
     else: d.update({"target": "stat:" + (case["target"] if isinstance(case["target"], str) else "_".join(case["target"])), "layout": case["layout"]})
     return d
+
+
+def translate(repo, gen_dir):
+    """regenerate Gen/C02_Kernel.v (bodies of mat_meiosis/dense_meiosis, dh/mate wrappers, map functions, gdist1g expressions,
+    rprob1g/interp_xoprob/from_gmod wiring) from the current source; fail closed"""
+    from translate import c02_kernel
+    return [c02_kernel.translate(repo, gen_dir)]
